@@ -221,10 +221,26 @@ def gen_case(rng, kind, n=None):
         k = rng.choice(list(nodes))
         nodes[k][rng.randrange(n)] = rng.choice([4, 5, 11])
     case["nodes"] = nodes
-    # pre-existing elements (created with single calls; give some optional columns an existence)
-    case["pre"] = rng.choice([0, 0, 1, 2])
-    case["pre_opt"] = rng.random() < 0.5
+    # pre-existing elements (created with single calls).  Each gets its own random subset of the optional arguments,
+    # independent of what this case passes, so that optional columns exist / do not exist in the target table before
+    # the calls under test (column present + argument omitted, column absent + argument passed, ...)
+    case["pre"] = rng.choice([0, 0, 1, 1, 2])
+    case["pre_opt"] = True
+    case["pre_args"] = []
+    for _j in range(case["pre"]):
+        d = {}
+        for a in K["args"]:
+            if a["kind"] == "opt" and a["p_nan"] > 0 and rng.random() < 0.35:
+                d[a["name"]] = a["gen"](rng)
+        case["pre_args"].append(d)
     case["pre_index"] = rng.choice([None, None, [5, 2][:case["pre"]]])
+    # sibling tables: one element each in some of load / sgen / storage / gen with a random subset of the OPF limit
+    # columns, so that the same optional column exists in another table but not in the target table (or vice versa)
+    case["siblings"] = {}
+    if rng.random() < 0.5:
+        for sib in ("load", "sgen", "storage", "gen"):
+            if sib != kind and rng.random() < 0.5:
+                case["siblings"][sib] = {a["name"]: a["gen"](rng) for a in LIMS if rng.random() < 0.5}
     # storage rows (the table create_wards looks at)
     case["pre_storage"] = rng.choice([0, 0, 0, 1, 3]) if kind == "ward" else 0
     # index
@@ -253,6 +269,16 @@ def build_base(case, rng_unused=None):
     net = base_net(None)
     if "std" in K:
         pp.create_std_type(net, case["std"], "S", K["std"][0])
+    # sibling tables first (their optional columns must not influence the target table)
+    for sib, lim in case.get("siblings", {}).items():
+        if sib == "load":
+            pp.create_load(net, BUS_IDS[0], 1.0, **lim)
+        elif sib == "sgen":
+            pp.create_sgen(net, BUS_IDS[1], 1.0, **lim)
+        elif sib == "storage":
+            pp.create_storage(net, BUS_IDS[2], 1.0, 2.0, **lim)
+        elif sib == "gen":
+            pp.create_gen(net, BUS_IDS[3], 1.0, **lim)
     # pre-existing rows
     single = getattr(pp, K["single"])
     for j in range(case["pre"]):
@@ -262,10 +288,15 @@ def build_base(case, rng_unused=None):
         for a in K["args"]:
             if a["kind"] == "req":
                 kw[a["name"]] = 1.0
-            elif case["pre_opt"] and a["name"] in case["args"] and j == 0:
-                v = [x for x in case["args"][a["name"]] if not (isinstance(x, str) and x.startswith("NANLIKE"))]
-                if v:
-                    kw[a["name"]] = v[0]
+        pre_args = case.get("pre_args")
+        if pre_args is not None:
+            kw.update(pre_args[j])
+        elif case["pre_opt"] and j == 0:                  # older corpus cases
+            for a in K["args"]:
+                if a["kind"] != "req" and a["name"] in case["args"]:
+                    v = [x for x in case["args"][a["name"]] if not (isinstance(x, str) and x.startswith("NANLIKE"))]
+                    if v:
+                        kw[a["name"]] = v[0]
         if "std" in K:
             kw["std_type"] = "S"
         if case["pre_index"]:
